@@ -32,6 +32,7 @@ Definition byte := N.
 Definition u16_wrap (n : N) : N := (n mod 65536)%N.
 Definition u32_wrap (n : N) : N := (n mod 4294967296)%N.
 Definition u64_max : N := 18446744073709551615%N.
+Definition u64_wrap (n : N) : N := (n mod 18446744073709551616)%N.
 
 Fixpoint list_update {A} (l : list A) (i : nat) (x : A) : list A :=
   match l, i with
